@@ -47,8 +47,12 @@ def run_type(ctx, q):
     n = 0
     bad = []
     accepts_callables = TABLE[q] == "callable" or q in DYNAMIC_NUMERIC
-    for allow_none, kind in itertools.product([True, False], ["none", "ok", "bad", "callable"]):
-        val = None if kind == "none" else Obj("value_" + kind, __iter__=[Obj("element")])
+    for allow_none, kind0 in itertools.product([True, False], ["none", "ok", "falsy", "bad", "callable"]):
+        # "falsy": a well-typed value whose truth value is False ('' / 0 / () / [] / {}): typed like any other
+        kind = "ok" if kind0 == "falsy" else kind0
+        val = None if kind == "none" else Obj("value_" + kind0, __iter__=[] if kind0 == "falsy" else [Obj("element")])
+        if kind0 == "falsy":
+            val.attrs["__bool__"] = False
         self_obj = Obj(name, allow_None=allow_none, bounds=None, inclusive_bounds=(True, True), softbounds=None, step=None,
                        regex=None, length=LO, item_type=None, is_instance=True, class_=Obj("declared_class"), allow_named=True,
                        _named_colors=[], check_on_set=True)
@@ -82,11 +86,11 @@ def run_type(ctx, q):
                 raise AnalysisError("absint imprecise on the validators of %s (allow_None=%s, value %s): %s" % (name, allow_none, kind, o.notes[:2]))
             got = o.kind == "return"
             if got != want:
-                bad.append((allow_none, kind, got))
+                bad.append((allow_none, kind0, got))
     ctx.abstract_cases += n
     if bad:
         an, kind, got = bad[0]
-        what = {"none": "None", "ok": "a value of the declared type", "bad": "a value of a different type",
+        what = {"none": "None", "ok": "a value of the declared type", "falsy": "an empty/zero (falsy) value of the declared type", "bad": "a value of a different type",
                 "callable": "a callable that is not of the declared type"}[kind]
         ctx.fail("R01.h", f, f.node, "%s with allow_None=%s %s %s (specification: %s)" % (
             name, an, "accepts" if got else "rejects", what, "reject" if got else "accept"),
@@ -94,6 +98,58 @@ def run_type(ctx, q):
             input="param.%s(allow_None=%s) <- %s" % (name, an, what))
     else:
         ctx.ok("R01.h", f, f.node, "%s: %d/%d abstract cases agree (None iff allow_None; otherwise iff well typed)" % (name, n, n))
+
+
+REGEX_TYPES = ("param.parameterized.String", "param.parameters.Bytes")
+
+
+def rule_regex(ctx):
+    """R01.j: with a regex set, a well-typed value is accepted iff the regex matches it; None iff allow_None."""
+    hier = ctx.hier
+    for q in REGEX_TYPES:
+        f = hier.resolve(q, "_validate")
+        name = q.rsplit(".", 1)[-1]
+        n, bad = 0, []
+        for allow_none, has_regex, kind in itertools.product([True, False], [True, False], ["none", "match", "nomatch", "empty-match", "empty-nomatch"]):
+            val = None if kind == "none" else Obj("value_" + kind)
+            if kind.startswith("empty"):
+                val.attrs["__bool__"] = False
+            rx = Obj("regex") if has_regex else None
+            self_obj = Obj(name, allow_None=allow_none, regex=rx)
+            seen_match = []
+
+            def hook(fn, args, kwargs, val=val, kind=kind, rx=rx, seen_match=seen_match):
+                if fn == "isinstance":
+                    return args[0] is not None
+                if fn in ("re.match", "re.fullmatch", "re.search") or fn.endswith(".match"):
+                    if rx is None or val is None:
+                        raise Unsupported("regex matching attempted with regex=%r value=%r" % (rx, val))
+                    seen_match.append(1)
+                    return Obj("match") if kind.endswith("-match") or kind == "match" else None
+                return NotImplemented
+            it = Interp(hier, dyn=q, inline=lambda m: m.startswith("_validate"), call_hook=hook)
+            try:
+                outs = it.run_all(f, {f.params[0]: self_obj, f.params[1]: val})
+            except Unsupported as e:
+                raise AnalysisError("absint cannot interpret the validators of %s: %s -- R01.j cannot decide" % (name, e))
+            n += 1
+            want = allow_none if kind == "none" else (not has_regex or kind in ("match", "empty-match"))
+            for o in outs:
+                if o.imprecise:
+                    raise AnalysisError("absint imprecise on the validators of %s (R01.j): %s" % (name, o.notes[:2]))
+                if (o.kind == "return") != want:
+                    bad.append((allow_none, has_regex, kind, o.kind == "return"))
+        ctx.abstract_cases += n
+        if bad:
+            an, hr, kind, got = bad[0]
+            what = {"none": "None", "match": "a string the regex matches", "nomatch": "a string the regex does not match",
+                    "empty-match": "an empty string that the regex matches", "empty-nomatch": "an empty string that the regex does not match"}[kind]
+            ctx.fail("R01.j", f, f.node, "%s(allow_None=%s, regex %s) %s %s (specification: %s)" % (
+                name, an, "set" if hr else "None", "accepts" if got else "rejects", what, "reject" if got else "accept"),
+                key="%s::regex-table::%s::%s" % (q, kind, "accept" if got else "reject"),
+                input="param.%s(regex=..., allow_None=%s) <- %s" % (name, an, what))
+        else:
+            ctx.ok("R01.j", f, f.node, "%s: %d/%d abstract cases agree (regex x allow_None x None/matching/non-matching/empty)" % (name, n, n))
 
 
 def rule_h(ctx):
